@@ -116,6 +116,18 @@ func StartProxy(scratchPrefix string, nss ...*models.Namespace) (*Proxy, error) 
 	return p, nil
 }
 
+// ReloadNamespace replaces a namespace by a freshly built one (two-phase reload of the
+// real Manager): new Namespace object, new slices, new connection pools, empty plan
+// cache. Only one Manager can exist per process (Gaea's stats registry panics on a second
+// one), so this is how an in-process harness gets "fresh" backend connections. The old
+// namespace's pools are closed by Gaea in the background after its delay.
+func (p *Proxy) ReloadNamespace(ns *models.Namespace) error {
+	if err := p.Mgr.ReloadNamespacePrepare(ns); err != nil {
+		return err
+	}
+	return p.Mgr.ReloadNamespaceCommit(ns.Name)
+}
+
 // Close shuts the proxy down and removes its scratch directory.
 func (p *Proxy) Close() {
 	p.Srv.Close()
